@@ -8,6 +8,7 @@ verdict is computed here: DriverTrace.tla judges every event.
 """
 import copy
 import math
+import os
 import warnings
 
 import numpy as np
@@ -427,6 +428,36 @@ def _fixed_form(cfg):
     raise ValueError(form)
 
 
+class _ViaPositional:
+    """Stands in for tensorly.decomposition: hands every argument over POSITIONALLY, in the order of the published signature
+    (harness/positional_signatures.json, recorded from the pinned tree: the order callers were written against), filling the
+    parameters the configuration does not set with their published defaults."""
+    _SIG = None
+
+    def __init__(self, D):
+        self.D = D
+        if _ViaPositional._SIG is None:
+            import json as _json
+            _ViaPositional._SIG = _json.load(open(os.path.join(os.path.dirname(os.path.abspath(__file__)), "positional_signatures.json")))
+
+    def __getattr__(self, fname):
+        fn = getattr(self.D, fname)
+        sig = _ViaPositional._SIG.get(fname)
+        if sig is None:
+            return fn
+
+        def call(data, rank, **kw):
+            unknown = [k for k in kw if k not in [p[0] for p in sig]]
+            if unknown:
+                raise NotImplementedError("no published parameter %s in %s" % (unknown, fname))
+            last = max([i for i, p_ in enumerate(sig) if p_[0] in kw] + [1])
+            args = [data, rank]
+            for name, _req, default in sig[2:last + 1]:
+                args.append(kw[name] if name in kw else default)
+            return fn(*args)
+        return call
+
+
 class _ViaWrapper:
     """Stands in for tensorly.decomposition: routes the functional call through the class wrapper (fit_transform + errors_)."""
 
@@ -508,6 +539,8 @@ def _nflag(cfg):
 def _run_alg(cfg, data, cap, with_cb, tl, D):
     if cfg.get("wrapper"):
         D = _ViaWrapper(D, refit=cfg.get("wrapper_refit") or False)
+    elif cfg.get("call_form") == "positional":
+        D = _ViaPositional(D)
     alg = cfg["alg"]
     seed = cfg["seed"]
     rank = cfg["rank"]
@@ -1190,6 +1223,8 @@ def driver_configs(tier, seed, algs=None):
         if "normalize" in c and "normalize_form" not in c:
             # the SPELLING of the flag rotates (deterministically, not from the random stream): True/False, np.bool_, 1/0
             c["normalize_form"] = ("bool", "np_bool", "int")[len(cfgs) % 3]
+        if len(cfgs) % 4 == 3 and not c.get("wrapper") and "call_form" not in c:
+            c["call_form"] = "positional"      # every argument handed over positionally, in the published order
         cfgs.append(c)
 
     shapes = {2: [[5, 4]], 3: [[4, 5, 3], [3, 3, 4]], 4: [[3, 4, 2, 3]]}
@@ -1507,6 +1542,8 @@ def warm_configs(tier, seed):
         c = {"alg": alg, "seed": int(rng.randint(0, 10**6)), "init": "user", "caps": [0, 1, 2, 3, 5]}
         c.update(kw)
         c["id"] = "w%s-%03d" % (alg, len([x for x in cfgs if x["alg"] == alg]))
+        if len(cfgs) % 4 == 3 and not c.get("wrapper") and "call_form" not in c:
+            c["call_form"] = "positional"
         cfgs.append(c)
     import itertools
     shape = [4, 5, 3]
